@@ -362,3 +362,259 @@ Proof.
   - left. split; [lra|]. split; [apply (bool_false_of_iff _ _ SL); lra | apply SG; lra].
   - right. split; [lra|]. split; [apply SL; lra | apply (bool_false_of_iff _ _ SG); lra].
 Qed.
+
+(* ================================================================ the repaired test (fixes/C08_funit_allowance.patch)
+     rad = n * frad;  ab = cplx_mod (z);  rad += 8 * DBL_EPSILON * (ab + 1);  return (rad + 1 >= ab) && (rad + ab >= 1);
+   `no touch' now implies n * r < | |z| - 1 | EXACTLY, for every factor n >= 1, every finite radius >= 0 and centre whose
+   modulus does not overflow; the side tests name the side. *)
+
+(* a double that is finite and non-negative, or +infinity (what the intermediate results of the test are) *)
+Definition NN (x : b64) : Prop := (is_finite x = true /\ 0 <= B2R x) \/ x = B754_infinity false.
+
+Lemma fadd_NN : forall a b : b64, NN a -> NN b ->
+  NN (fadd a b) /\
+  (is_finite (fadd a b) = true -> is_finite a = true /\ is_finite b = true /\ B2R (fadd a b) = rnd64 (B2R a + B2R b)).
+Proof.
+  intros a b [[Fa Pa]|Ia] [[Fb Pb]|Ib].
+  - destruct (fadd_nonneg a b Fa Fb Pa Pb) as [[F V]|I].
+    + split; [left; split; [exact F|]|intros _; repeat split; assumption].
+      rewrite V. apply round_ge_generic; try typeclasses eauto. apply generic_format_0. lra.
+    + split; [right; exact I|]. rewrite I. intro K; discriminate.
+  - subst b. assert (E : fadd a (B754_infinity false) = B754_infinity false).
+    { destruct a as [s|s| |s m e He]; try discriminate; reflexivity. }
+    rewrite E. split; [right; reflexivity|intro K; discriminate].
+  - subst a. assert (E : fadd (B754_infinity false) b = B754_infinity false).
+    { destruct b as [s|s| |s m e He]; try discriminate; reflexivity. }
+    rewrite E. split; [right; reflexivity|intro K; discriminate].
+  - subst a b. split; [right; reflexivity|intro K; discriminate].
+Qed.
+
+Lemma f_allow_facts_f : is_finite f_allow = true /\ B2R f_allow = 16 * u53 /\ Bsign f_allow = false.
+Proof.
+  assert (V : B2R f_allow = bpow radix2 (-49)).
+  { unfold f_allow, B2R, F2R. cbn [Fnum Fexp cond_Zopp]. change (IZR 4503599627370496) with (bpow radix2 52).
+    rewrite <- bpow_plus. reflexivity. }
+  split; [reflexivity|]. split; [|reflexivity].
+  rewrite V. apply p49.
+Qed.
+
+(* a positive finite double times a double that is finite and non-negative or +infinity *)
+Lemma fmul_NN : forall c x : b64, is_finite c = true -> 0 < B2R c -> NN x ->
+  NN (fmul c x) /\ (is_finite (fmul c x) = true -> is_finite x = true /\ B2R (fmul c x) = rnd64 (B2R c * B2R x)).
+Proof.
+  intros c x Fc Pc Hx.
+  destruct (pos_finite_shape c Fc Pc) as (mc & ec & Hc & Ec).
+  assert (Sc : Bsign c = false) by (rewrite Ec; reflexivity).
+  destruct Hx as [[Fx Px]|Ix].
+  - pose proof (Bmult_correct 53 1024 Hprec53 Hmax1024 mode_NE c x) as HB.
+    change (round_mode mode_NE) with ZnearestE in HB.
+    destruct (Rlt_bool (Rabs (rnd64 (B2R c * B2R x))) (bpow radix2 1024)) eqn:Hov.
+    + destruct HB as (V & F & _). rewrite Fc, Fx in F. simpl in F. split.
+      * left. split; [exact F|]. unfold fmul. rewrite V. apply round_ge_generic; try typeclasses eauto. apply generic_format_0.
+        apply Rmult_le_pos; lra.
+      * intros _. split; [exact Fx|exact V].
+    + assert (Hs : Bsign x = false).
+      { destruct (Bsign x) eqn:E; [|reflexivity]. pose proof (Bsign_true_le0 x Fx E).
+        assert (B2R x = 0) by lra. rewrite H0, Rmult_0_r, round_0, Rabs_R0 in Hov; [|typeclasses eauto].
+        rewrite Rlt_bool_true in Hov by (apply bpow_gt_0). discriminate. }
+      rewrite Sc, Hs in HB. simpl in HB. apply overflow_is_inf in HB. unfold fmul. rewrite HB.
+      split; [right; reflexivity|intro K; discriminate].
+  - subst x. rewrite Ec. split; [right; reflexivity|intro K; discriminate].
+Qed.
+
+Lemma bpow_1022_le_1 : bpow radix2 (-1022) <= 1.
+Proof. change 1 with (bpow radix2 0). apply bpow_le. lia. Qed.
+
+Lemma bpow_1022_le_49 : bpow radix2 (-1022) <= bpow radix2 (-49).
+Proof. apply bpow_le. lia. Qed.
+
+Lemma lower_of_rel : forall x X : R, 0 <= X -> Rabs (x - X) <= u53 * X -> X * (1 - 2 * u53) <= x.
+Proof.
+  intros x X HX H. apply Rabs_le_inv in H. pose proof u53_pos. assert (0 <= u53 * X) by (apply Rmult_le_pos; lra). lra.
+Qed.
+
+Lemma ftouch_unit_fixed_facts : forall (n : Z) (r ab : b64),
+  (1 <= n < 2 ^ 31)%Z -> is_finite r = true -> 0 <= B2R r -> is_finite ab = true -> 0 <= B2R ab ->
+  ftouch_unit_ab_fixed n r ab = false ->
+  exists Rd S E R' T1 T2 : R,
+    0 <= Rd /\ IZR n * B2R r * (1 - u53) - eta64 <= Rd /\
+    (B2R ab + 1) * (1 - 2 * u53) <= S /\ 16 * u53 * S * (1 - 2 * u53) <= E /\
+    (Rd + E) * (1 - 2 * u53) <= R' /\ (R' + 1) * (1 - 2 * u53) <= T1 /\ (R' + B2R ab) * (1 - 2 * u53) <= T2 /\
+    (T1 < B2R ab \/ T2 < 1).
+Proof.
+  intros n r ab Hn Fr Pr Fab Pab H.
+  assert (Pn0 : 0 <= IZR n) by (apply IZR_le; lia).
+  assert (P0 : 0 <= IZR n * B2R r) by (apply Rmult_le_pos; [exact Pn0|exact Pr]).
+  destruct (f_of_Z_correct n) as (Vn & Fn & Sn). { lia. }
+  unfold ftouch_unit_ab_fixed in H. destruct (fge r (fdiv DBL_MAX (f_of_Z n))); [discriminate|].
+  set (nd := f_of_Z n) in *.
+  assert (Pn : 0 < B2R nd) by (rewrite Vn; apply IZR_lt; lia).
+  destruct f_allow_facts_f as (Fa & Va & _).
+  assert (Pa : 0 < B2R f_allow) by (rewrite Va; pose proof u53_pos; lra).
+  assert (NNr : NN r) by (left; split; assumption).
+  assert (NNab : NN ab) by (left; split; assumption).
+  assert (NN1 : NN fone) by (left; split; [reflexivity|rewrite B2R_fone; lra]).
+  destruct (fmul_NN nd r Fn Pn NNr) as (NNrad0 & Irad0).
+  destruct (fadd_NN ab fone NNab NN1) as (NNS & IS).
+  destruct (fmul_NN f_allow _ Fa Pa NNS) as (NNE & IE).
+  destruct (fadd_NN _ _ NNrad0 NNE) as (NNrad & Irad).
+  set (rad0 := fmul nd r) in *. set (Sd := fadd ab fone) in *. set (Ed := fmul f_allow Sd) in *.
+  set (rad := fadd rad0 Ed) in *.
+  destruct NNrad as [[Frad Prad]|Irad'].
+  2:{ exfalso. rewrite Irad' in H.
+      assert (E1 : fadd (B754_infinity false) fone = B754_infinity false) by reflexivity.
+      assert (E2 : fadd (B754_infinity false) ab = B754_infinity false).
+      { destruct ab as [s|s| |s m e He]; try discriminate; reflexivity. }
+      rewrite E1, E2, (fge_inf_l ab Fab) in H. discriminate. }
+  destruct (Irad Frad) as (Frad0 & FE & Vrad).
+  destruct (Irad0 Frad0) as (_ & Vrad0). rewrite Vn in Vrad0.
+  destruct (IE FE) as (FS & VE). rewrite Va in VE.
+  destruct (IS FS) as (_ & _ & VS). rewrite B2R_fone in VS.
+  pose proof u53_pos as U. pose proof (bpow_ge_0 radix2 (-1075)) as Eta0. fold eta64 in Eta0.
+  assert (PR0 : 0 <= B2R rad0).
+  { rewrite Vrad0. apply round_ge_generic; try typeclasses eauto. apply generic_format_0. exact P0. }
+  assert (LS : (B2R ab + 1) * (1 - 2 * u53) <= B2R Sd).
+  { apply lower_of_rel; [lra|]. rewrite VS. pose proof (rnd_rel (B2R ab + 1)) as K. rewrite (Rabs_pos_eq (B2R ab + 1)) in K by lra.
+    apply K. apply Rle_trans with 1; [exact bpow_1022_le_1|lra]. }
+  assert (PS : 1 <= B2R Sd).
+  { rewrite VS. apply round_ge_generic; try typeclasses eauto. apply fmt_one. lra. }
+  assert (LE : 16 * u53 * B2R Sd * (1 - 2 * u53) <= B2R Ed).
+  { apply lower_of_rel; [apply Rmult_le_pos; lra|]. rewrite VE.
+    pose proof (rnd_rel (16 * u53 * B2R Sd)) as K. rewrite (Rabs_pos_eq (16 * u53 * B2R Sd)) in K by (apply Rmult_le_pos; lra).
+    apply K. apply Rle_trans with (16 * u53 * 1); [|apply Rmult_le_compat_l; lra].
+    rewrite Rmult_1_r, <- p49. exact bpow_1022_le_49. }
+  assert (PE : 0 <= B2R Ed).
+  { rewrite VE. apply round_ge_generic; try typeclasses eauto. apply generic_format_0. apply Rmult_le_pos; lra. }
+  assert (LR : (B2R rad0 + B2R Ed) * (1 - 2 * u53) <= B2R rad).
+  { apply lower_of_rel; [lra|]. rewrite Vrad.
+    pose proof (rnd_plus_rel (B2R rad0) (B2R Ed) (generic_format_B2R 53 1024 rad0) (generic_format_B2R 53 1024 Ed)) as K.
+    rewrite (Rabs_pos_eq (B2R rad0 + B2R Ed)) in K by lra. exact K. }
+  exists (B2R rad0), (B2R Sd), (B2R Ed), (B2R rad), (rnd64 (B2R rad + 1)), (rnd64 (B2R rad + B2R ab)).
+  split; [exact PR0|]. split.
+  { rewrite Vrad0. pose proof (rnd_err (IZR n * B2R r)) as K. rewrite (Rabs_pos_eq _ P0) in K. apply Rabs_le_inv in K. lra. }
+  split; [exact LS|]. split; [exact LE|]. split; [exact LR|]. split.
+  { apply lower_of_rel; [lra|]. pose proof (rnd_rel (B2R rad + 1)) as K. rewrite (Rabs_pos_eq (B2R rad + 1)) in K by lra.
+    apply K. apply Rle_trans with 1; [exact bpow_1022_le_1|lra]. }
+  split.
+  { apply lower_of_rel; [lra|].
+    pose proof (rnd_plus_rel (B2R rad) (B2R ab) (generic_format_B2R 53 1024 rad) (generic_format_B2R 53 1024 ab)) as K.
+    rewrite (Rabs_pos_eq (B2R rad + B2R ab)) in K by lra. exact K. }
+  apply andb_false_iff in H. destruct H as [H|H].
+  - left. destruct (fadd_nonneg rad fone Frad eq_refl Prad ltac:(rewrite B2R_fone; lra)) as [[FT VT]|E].
+    + destruct (fcmp_finite (fadd rad fone) ab FT Fab) as (G & _).
+      rewrite VT, B2R_fone in G. destruct (Rlt_le_dec (rnd64 (B2R rad + 1)) (B2R ab)) as [|C]; [assumption|].
+      apply G in C. rewrite C in H. discriminate.
+    + rewrite E, (fge_inf_l ab Fab) in H. discriminate.
+  - right. destruct (fadd_nonneg rad ab Frad Fab Prad Pab) as [[FT VT]|E].
+    + destruct (fcmp_finite (fadd rad ab) fone FT eq_refl) as (G & _).
+      rewrite VT, B2R_fone in G. destruct (Rlt_le_dec (rnd64 (B2R rad + B2R ab)) 1) as [|C]; [assumption|].
+      apply G in C. rewrite C in H. discriminate.
+    + rewrite E in H. discriminate.
+Qed.
+
+Theorem ftouch_unit_fixed_sound : forall (n : Z) (r x y : b64),
+  (1 <= n < 2 ^ 31)%Z -> is_finite r = true -> is_finite x = true -> is_finite y = true -> 0 <= B2R r ->
+  is_finite (cplx_mod_f x y) = true ->
+  ftouch_unit_fixed n r x y = false ->
+  (IZR n * B2R r + 1 < fmod2 x y /\ flt (cplx_mod_f x y) fone = false /\ fgt (cplx_mod_f x y) fone = true) \/
+  (fmod2 x y + IZR n * B2R r < 1 /\ flt (cplx_mod_f x y) fone = true /\ fgt (cplx_mod_f x y) fone = false).
+Proof.
+  intros n r x y Hn Fr Fx Fy Pr Fin H.
+  destruct (cplx_mod_f_spec x y Fx Fy Fin) as (A0 & EA).
+  unfold ftouch_unit_fixed in H. set (ab := cplx_mod_f x y) in *.
+  destruct (ftouch_unit_fixed_facts n r ab Hn Fr Pr Fin A0 H) as (Rd & S & E & R' & T1 & T2 & R0 & ER & ES & EE & ER' & ET1 & ET2 & HD).
+  destruct (fcmp_finite ab fone Fin eq_refl) as (_ & SG & SL & _). rewrite B2R_fone in SG, SL.
+  assert (U : 0 < u53 <= / 1048576) by (rewrite u53_eq_f; lra).
+  assert (Eta : 0 <= eta64 <= u53 * u53).
+  { split. apply bpow_ge_0. unfold eta64, u53. rewrite <- bpow_plus. apply bpow_le. lia. }
+  assert (N0 : 0 <= IZR n * B2R r) by (apply Rmult_le_pos; [apply IZR_le; lia|assumption]).
+  destruct (unit_dec_real_fixed u53 eta64 (IZR n * B2R r) (fmod2 x y) Rd (B2R ab) S E R' T1 T2 U Eta N0 (sqrt_pos _) A0 R0 ER EA ES EE ER' ET1 ET2 HD)
+    as [[K1 K2]|[K1 K2]].
+  - left. split; [exact K1|]. split; [apply (bool_false_of_iff _ _ SL); lra | apply SG; lra].
+  - right. split; [exact K1|]. split; [apply SL; lra | apply (bool_false_of_iff _ _ SG); lra].
+Qed.
+
+(* ---- cplx_mod does not overflow for parts up to 2^1022 in magnitude *)
+Lemma hyp_core_finite : forall a b : b64,
+  is_finite a = true -> is_finite b = true -> B2R a <> 0 -> Rabs (B2R b) <= Rabs (B2R a) ->
+  Rabs (B2R a) <= bpow radix2 1022 ->
+  is_finite (hyp_core a b) = true.
+Proof.
+  intros a b Fa Fb Na Hab Hbig.
+  set (ra := B2R a) in *. set (rb := B2R b) in *.
+  assert (Pa : 0 < Rabs ra) by (apply Rabs_pos_lt; exact Na).
+  set (t := rb / ra).
+  assert (Ht : Rabs t <= 1).
+  { unfold t, Rdiv. rewrite Rabs_mult, Rabs_inv. apply Rmult_le_reg_r with (Rabs ra); [exact Pa|].
+    rewrite Rmult_assoc, Rinv_l by lra. lra. }
+  (* d = fl (b / a) *)
+  unfold hyp_core in *. set (d := fdiv b a) in *.
+  pose proof (Bdiv_correct 53 1024 Hprec53 Hmax1024 mode_NE b a Na) as HD.
+  change (round_mode mode_NE) with ZnearestE in HD. fold ra rb in HD. fold t in HD.
+  assert (Hd1 : Rabs (rnd64 t) <= 1) by (apply abs_round_le_generic; try typeclasses eauto; [apply fmt_one|exact Ht]).
+  rewrite Rlt_bool_true in HD by (apply Rle_lt_trans with (1 := Hd1); change 1 with (bpow radix2 0); apply bpow_lt; lia).
+  destruct HD as (Vd & Fd & _). change (Bdiv mode_NE b a) with d in Vd, Fd. rewrite Fb in Fd.
+  (* e = fl (d * d) *)
+  set (e := fmul d d) in *.
+  pose proof (Bmult_correct 53 1024 Hprec53 Hmax1024 mode_NE d d) as HE.
+  change (round_mode mode_NE) with ZnearestE in HE. rewrite Vd in HE.
+  pose proof (abs_le_1_sq _ Hd1) as D2.
+  assert (He1 : 0 <= rnd64 (rnd64 t * rnd64 t) <= 1).
+  { split. apply round_ge_generic; try typeclasses eauto. apply generic_format_0. lra.
+    apply round_le_generic; try typeclasses eauto. apply fmt_one. lra. }
+  rewrite Rlt_bool_true in HE by (rewrite Rabs_pos_eq by lra; apply Rle_lt_trans with 1; [lra|]; change 1 with (bpow radix2 0); apply bpow_lt; lia).
+  destruct HE as (Ve & Fe & _). change (Bmult mode_NE d d) with e in Ve, Fe. rewrite Fd in Fe. simpl in Fe.
+  (* s = fl (1 + e) *)
+  set (s := fadd fone e) in *.
+  pose proof (Bplus_correct 53 1024 Hprec53 Hmax1024 mode_NE fone e eq_refl Fe) as HS.
+  change (round_mode mode_NE) with ZnearestE in HS. rewrite B2R_fone, Ve in HS.
+  set (re := rnd64 (rnd64 t * rnd64 t)) in *.
+  assert (Hs1 : 1 <= rnd64 (1 + re) <= 2).
+  { split. apply round_ge_generic; try typeclasses eauto. apply fmt_one. lra.
+    apply round_le_generic; try typeclasses eauto. apply fmt_two_f. lra. }
+  rewrite Rlt_bool_true in HS by (rewrite Rabs_pos_eq by lra; apply Rle_lt_trans with 2; [lra|]; change 2 with (bpow radix2 1); apply bpow_lt; lia).
+  destruct HS as (Vs & Fs & _). change (Bplus mode_NE fone e) with s in Vs, Fs.
+  (* q = fl (sqrt s) *)
+  set (q := fsqrt s) in *.
+  destruct (Bsqrt_correct 53 1024 Hprec53 Hmax1024 mode_NE s) as (Vq & Fq & _).
+  change (round_mode mode_NE) with ZnearestE in Vq. change (Bsqrt mode_NE s) with q in Vq, Fq. rewrite Vs in Vq.
+  set (rs := rnd64 (1 + re)) in *.
+  destruct (pos_finite_shape s Fs ltac:(rewrite Vs; lra)) as (ms & es & Hs & Es). rewrite Es in Fq.
+  assert (Sq1 : 1 <= sqrt rs). { rewrite <- sqrt_1. apply sqrt_le_1_alt. lra. }
+  assert (Hq1 : 1 <= rnd64 (sqrt rs)).
+  { apply round_ge_generic; try typeclasses eauto. apply fmt_one. exact Sq1. }
+  assert (Sq2 : sqrt rs <= 2).
+  { rewrite <- (sqrt_square 2) by lra. apply sqrt_le_1_alt. lra. }
+  assert (Hq2 : rnd64 (sqrt rs) <= 2).
+  { apply round_le_generic; try typeclasses eauto. apply fmt_two_f. exact Sq2. }
+  pose proof (Bmult_correct 53 1024 Hprec53 Hmax1024 mode_NE (fabs a) q) as HA.
+  change (round_mode mode_NE) with ZnearestE in HA. unfold fabs in HA. rewrite B2R_Babs, Vq in HA. fold ra in HA.
+  assert (HL : Rabs (rnd64 (Rabs ra * rnd64 (sqrt rs))) < bpow radix2 1024).
+  { apply Rle_lt_trans with (bpow radix2 1023); [|apply bpow_lt; lia].
+    apply abs_round_le_generic; try typeclasses eauto. { apply generic_format_bpow. vm_compute. discriminate. }
+    rewrite Rabs_mult, Rabs_Rabsolu, (Rabs_pos_eq (rnd64 (sqrt rs))) by lra.
+    replace (bpow radix2 1023) with (bpow radix2 1022 * 2) by (change 1023%Z with (1022 + 1)%Z; rewrite bpow_plus; reflexivity).
+    apply Rmult_le_compat; lra. }
+  rewrite (Rlt_bool_true _ _ HL) in HA. destruct HA as (_ & FA & _).
+  rewrite is_finite_Babs, Fa, Fq in FA. exact FA.
+Qed.
+
+Theorem cplx_mod_f_finite : forall x y : b64, is_finite x = true -> is_finite y = true ->
+  Rabs (B2R x) <= bpow radix2 1022 -> Rabs (B2R y) <= bpow radix2 1022 ->
+  is_finite (cplx_mod_f x y) = true.
+Proof.
+  intros x y Fx Fy Bx By. rewrite cplx_mod_f_unfold.
+  assert (Fax : is_finite (fabs x) = true) by (unfold fabs; rewrite is_finite_Babs; exact Fx).
+  assert (Fay : is_finite (fabs y) = true) by (unfold fabs; rewrite is_finite_Babs; exact Fy).
+  destruct (fcmp_finite (fabs x) (fabs y) Fax Fay) as (_ & G & _). unfold fabs in G. rewrite !B2R_Babs in G. fold fabs in G.
+  destruct (fgt (fabs x) (fabs y)) eqn:C.
+  - assert (K : Rabs (B2R y) < Rabs (B2R x)) by (apply G; reflexivity).
+    assert (Nx : B2R x <> 0) by (intro E; rewrite E, Rabs_R0 in K; pose proof (Rabs_pos (B2R y)); lra).
+    apply (hyp_core_finite x y Fx Fy Nx (Rlt_le _ _ K) Bx).
+  - assert (K : Rabs (B2R x) <= Rabs (B2R y)).
+    { destruct (Rle_lt_dec (Rabs (B2R x)) (Rabs (B2R y))); [assumption|]. apply G in r. discriminate. }
+    destruct (fcmp_finite y fzero Fy eq_refl) as (_ & _ & _ & Q). rewrite B2R_fzero in Q.
+    destruct (feq y fzero) eqn:Cz; [reflexivity|].
+    assert (Ny : B2R y <> 0) by (intro E; apply Q in E; rewrite E in Cz; discriminate).
+    apply (hyp_core_finite y x Fy Fx Ny K By).
+Qed.
